@@ -74,6 +74,33 @@ def is_rec_map(p, fname, variant, field):
     return True, ""
 
 
+def is_rec_push_loop(fn, envs, pm, arm, p, fname, variant, field):
+    """p is a local vector filled, in this arm, by exactly one `v.push(fname(.. child ..)[?])` standing directly in a `for` over
+    variant.field (forward, no adaptor, no condition, no break / continue): the spelled-out `iter().map(rec).collect()`"""
+    p = P.peel(p)
+    if p[0] != "local":
+        return False
+    name = p[1]
+    pushes = [c for c in P.find_calls(arm["body"], methods={"push"}) if c["recv"]["k"] == "Path" and c["recv"]["path"] == name]
+    others = [c for c in P.find_calls(arm["body"], methods={"insert", "extend", "remove", "pop", "truncate", "clear", "retain", "reverse", "sort", "swap", "dedup"}) if c["recv"]["k"] == "Path" and c["recv"]["path"] == name]
+    if len(pushes) != 1 or others:
+        return False
+    c = pushes[0]
+    gs = A.guards_of(c, pm, stop=arm)
+    if len(gs) != 1 or gs[0][0]["k"] != "ForLoop":
+        return False
+    lp = gs[0][0]
+    if any(x["k"] in ("Break", "Continue") for x in A.walk(lp["body"])):
+        return False
+    it = A.resolve(lp["iter"], envs.get(id(lp)))
+    while it[0] in ("ref", "deref") or (it[0] == "mcall" and it[1] in ("iter", "into_iter", "copied", "cloned")):
+        it = it[1] if it[0] != "mcall" else it[2]
+    if not bind_of(it, variant, field):
+        return False
+    a = P.peel(A.resolve(c["args"][0], envs.get(id(c))))
+    return a[0] == "call" and P.last(a[1]) == fname and any(r[0] == "bind" and P.last(r[1]) == variant and r[2] == field for x in a[2] for r in A.roots(x))
+
+
 def closure_calls(repo_fn, envs, closure_id, fname, variant, field):
     """does the closure body call fname with the iterated element?"""
     for n in A.walk(repo_fn.body):
@@ -123,6 +150,9 @@ def tr_check(repo, res, rule="TR"):
             res.bad(rule, key(v), f"Expr::{v} is translated to RegexNode::{P.last(x[1])}, the grammar's meaning needs {want}", loc)
             continue
         ok, why = is_rec_map(x[2][0], me, v, "children")
+        if not ok and is_rec_push_loop(fn, envs, pm, arm, x[2][0], me, v, "children"):
+            res.ok(rule, key(v), f"{want}(children translated one by one, in order, by a loop that pushes rec(child)) ", loc)
+            continue
         if ok:
             coll = P.peel(x[2][0])
             clo = [a for a in coll[2][3] if a[0] == "closure"]
